@@ -1,10 +1,12 @@
 """CrossHair harness for C32: the REAL HailType._convert_to_json_na / _convert_from_json_na on values built
 from symbolic scalars, for a catalogue of Hail types to depth 2.
 
-Symbolic: integers (int32/int64 range), floats (CrossHair reals) plus an explicit selector for NaN / +inf / -inf,
-booleans, missingness flags at every level, collection lengths 0..2, call ploidy/phasing/alleles, locus
-contig/position, interval end-point inclusion.  Strings are picked by a symbolic index from a short list
-(their content passes through the conversion untouched; they only matter as dict keys / set members).
+Symbolic scalars of one condition (a pool; positions of a value draw from it in order and wrap around, so distant
+positions may share a variable): i0,i1 64-bit ints, j0,j1 32-bit ints, p0 locus position, f0,f1 floats (CrossHair
+reals) with g0,g1 selecting real / NaN / +inf / -inf, s0,s1 string choice (3 fixed strings: they pass through the
+conversion untouched and only matter as dict keys / set members), c0 call ploidy, a0,a1 allele choice among
+{0,1,999} (str()/int() of a symbolic integer is intractable for CrossHair), b0,b1 booleans (phasing, contig,
+interval bounds), m0..m2 missingness flags, n0,n1 collection lengths 0..2 (n1 <= 1 in the quick tier).
 ndarrays need real numpy (C level): the symbolic part is the choice among concrete arrays (C and F order).
 
 The JSON *text* step (json.dumps / json.loads are C functions) is replaced by `wire`, a pure-Python
@@ -258,11 +260,6 @@ def catalogue(tier):
     out += [T.ttuple(), T.ttuple(T.tint32, T.tstr), T.ttuple(T.tfloat32, T.tcall), T.ttuple(L, T.tbool)]
     out += [T.tinterval(T.tint32), T.tinterval(T.tfloat64), T.tinterval(T.tstr), T.tinterval(L)]
     out += nd + d2
-    inner = [T.tarray(T.tfloat64), T.tset(T.tstr), T.tdict(T.tstr, T.tint32), T.tstruct(a=T.tint32, b=T.tcall),
-             T.ttuple(T.tbool, L), T.tinterval(T.tint32)]
-    for c in inner:
-        out += [T.tarray(c), T.tset(c), T.tdict(T.tstr, c), T.tdict(c, T.tint32), T.tstruct(x=c, y=T.tfloat32),
-                T.ttuple(c, T.tstr), T.tinterval(c)]
     seen = []
     for t in out:
         if str(t) not in [str(x) for x in seen]:
